@@ -190,14 +190,23 @@ func (b *Broker) message(ctx context.Context) map[string][]Message {
 			return newValue
 		})
 		if b.Timeout > 0 {
-			ctx, cancel := context.WithTimeout(ctx, b.Timeout)
-			defer cancel()
-			select {
-			case <-ctx.Done():
-				go b.doHeartBeat(context.Background(), id)
-				return map[string][]Message{}
-			case result := <-responder:
-				return result
+			for {
+				timeoutCtx, cancel := context.WithTimeout(ctx, b.Timeout)
+				select {
+				case <-timeoutCtx.Done():
+					cancel()
+					// give up only if the responder can be withdrawn; if a publisher
+					// has taken it, it is about to answer or to register it again
+					if ctx.Err() != nil || b.responders.RemoveCb(id, func(_ string, v interface{}, exists bool) bool {
+						return exists && v.(chan map[string][]Message) == responder
+					}) {
+						go b.doHeartBeat(context.Background(), id)
+						return map[string][]Message{}
+					}
+				case result := <-responder:
+					cancel()
+					return result
+				}
 			}
 		}
 	}
